@@ -9,6 +9,9 @@ src = open(path).read()
 if src.count(old) < 1:
     print("MUTATION DID NOT APPLY: pattern not found"); sys.exit(3)
 open(path, "w").write(src.replace(old, new, 1))
+import shutil, tempfile
+evidence_backup = tempfile.mkdtemp(prefix="evidence-")
+shutil.copytree("/verif/evidence", evidence_backup + "/e")
 try:
     b = subprocess.run(["bash", "-c", "cd /repo && GOFLAGS=-mod=mod go build ./... 2>&1 | tail -5"], stdout=subprocess.PIPE, text=True)
     if b.stdout.strip():
@@ -19,5 +22,9 @@ try:
         detail = [l for l in p.stdout.splitlines() if " [" in l and "] " in l][:2]
         print(i, "rc=%d" % p.returncode, lines, detail)
 finally:
+    # evidence must describe runs on the unchanged tree: put back what was there before the mutant runs
+    shutil.rmtree("/verif/evidence", ignore_errors=True)
+    shutil.copytree(evidence_backup + "/e", "/verif/evidence")
+    shutil.rmtree(evidence_backup, ignore_errors=True)
     open(path, "w").write(src)
     subprocess.run(["git", "-C", "/repo", "status", "--short"])
